@@ -142,6 +142,46 @@ func (a *aug) run() {
 		a.labels["derived"] = true
 	}
 
+	// region of C01-hashjoin-decimal-scale-key (while listed): an INT expression equated with a
+	// DECIMAL literal of integral value (2.00); the literal is written as an integer
+	if kf.Listed(idHashDec) {
+		fix := func(x, other gen.Expr) {
+			if l, ok := x.(*gen.Lit); ok && l.K == gen.KDec && !l.V.Null && l.V.R.IsInt() && other.Kind() == gen.KInt {
+				l.K = gen.KInt
+				a.excl[idHashDec]++
+			}
+		}
+		a.eachExpr(func(e gen.Expr) {
+			if c, ok := e.(*gen.CmpE); ok && (c.Op == "=" || c.Op == "<=>") {
+				fix(c.L, c.R)
+				fix(c.R, c.L)
+			}
+		})
+	}
+
+	// region of C02-outer-join-false-on-subquery (while listed): a LEFT/RIGHT join whose ON has a
+	// column-free conjunct, in a statement with a subquery. Besides the planning error recorded
+	// for C02 the same statements return values of the wrong column under some plans; the
+	// column-free conjuncts are removed.
+	if kf.Listed(idOuterSub) && gen.ConstConjunctInOuterOn(q) && a.hasSubquery() {
+		for i := range q.From {
+			f := &q.From[i]
+			if (f.Join == "LEFT" || f.Join == "RIGHT") && f.On != nil {
+				var on gen.Expr
+				for _, c := range gen.Conjuncts(f.On) {
+					if gen.HasColumn(c) {
+						on = and(on, c)
+					} else {
+						a.excl[idOuterSub]++
+					}
+				}
+				if on != nil {
+					f.On = on
+				}
+			}
+		}
+	}
+
 	// region of C01-lookup-key-rounding (while listed): gen replaces INT column = DECIMAL column;
 	// NOT (a <> b) is turned into a = b by the analyzer and reaches the same lookup
 	if kf.Listed(idRound) {
@@ -364,6 +404,17 @@ func (a *aug) mixedKindRange() bool {
 			if diff(x.E, x.Lo) || diff(x.E, x.Hi) || diff(x.Lo, x.Hi) {
 				found = true
 			}
+		}
+	})
+	return found
+}
+
+func (a *aug) hasSubquery() bool {
+	found := false
+	a.eachExpr(func(e gen.Expr) {
+		switch e.(type) {
+		case *gen.InSub, *gen.Exists, *gen.ScalarSub:
+			found = true
 		}
 	})
 	return found
